@@ -488,6 +488,45 @@ func Families(tier string) []Family {
 		fams = append(fams, f)
 	}
 
+	// complete-w: completion below a wrapper (UnsetOptions) that has options of its own and a sub-command (C17)
+	{
+		f := Family{Name: "complete-w"}
+		toks := Ts("w", "s", "--", "--w", "--wo=", "--wo=d", "--r", "--so", "-", "x", "")
+		for mode := 0; mode < 2; mode++ {
+			for variant := 0; variant < 2; variant++ {
+				c := Cfg{Mode: mode, OptsLate: variant == 1}
+				c.Nodes = []NodeCfg{rootNode(0, false), cmdNode("w", 1, 2, false, true), cmdNode("s", 2, 2, false, true)}
+				c.Nodes[1].Unset = true
+				wo := opt("string", "wo", 2, "wa")
+				wo.Sugg = Ts("dev", "prod")
+				c.Opts = []OptCfg{opt("string", "r", 1), wo, opt("bool", "wflag", 2), opt("bool", "so", 3)}
+				if variant == 1 {
+					c = WithHelp(c, "help")
+				}
+				f.Defs = append(f.Defs, Def{Cfg: c, Tokens: toks, L: lim(tier, 3, 3), Comp: true})
+			}
+		}
+		fams = append(fams, f)
+	}
+
+	// inherit: unknown mode and require-order set on the top level only, before the commands are created: the commands
+	// take them over from their parent (C08, C09); the top level declares no options of its own
+	{
+		f := Family{Name: "inherit"}
+		toks := Ts("cmd", "sub", "--v", "--s=1", "--u", "x", "--", "-")
+		for _, um := range []int{0, 1, 2} {
+			for _, ro := range []bool{false, true} {
+				for mode := 0; mode < 2; mode++ {
+					c := Cfg{Mode: mode, Inherit: true}
+					c.Nodes = []NodeCfg{rootNode(um, ro), cmdNode("cmd", 1, um, ro, true), cmdNode("sub", 2, um, ro, true)}
+					c.Opts = []OptCfg{opt("bool", "v", 2), opt("string", "s", 2), opt("bool", "t", 3)}
+					f.Defs = append(f.Defs, Def{Cfg: c, Tokens: toks, L: lim(tier, 4, 5)})
+				}
+			}
+		}
+		fams = append(fams, f)
+	}
+
 	// order: at least two entries in every table a diagnostic is chosen from (C20)
 	{
 		f := Family{Name: "order"}
@@ -520,7 +559,9 @@ func Families(tier string) []Family {
 		descs := []string{"", "one line", "first line\nsecond line"}
 		for variant := 0; variant < 6; variant++ {
 			c := Cfg{Mode: variant % 3}
-			c.Nodes = []NodeCfg{rootNode(0, false), cmdNode("c1", 1, 0, false, true), cmdNode("sub", 2, 0, false, true), cmdNode("w", 1, 2, false, true)}
+			c.Nodes = []NodeCfg{rootNode(0, false), cmdNode("c1", 1, 0, false, true), cmdNode("sub", 2, 0, false, true), cmdNode("w", 1, 2, false, true),
+				cmdNode("ws", 4, 2, false, true)} // ws: a command under the wrapper: sees the wrapper's own options, not the root's
+			c.OptsLate = variant%2 == 1 // the options of a level are declared after its commands (the help command re-propagates them)
 			c.Nodes[0].Fn = true
 			c.Nodes[1].Desc = T(descs[(variant+1)%3])
 			c.Nodes[2].Desc = T(descs[(variant+2)%3])
@@ -565,7 +606,7 @@ func Families(tier string) []Family {
 			}
 			c = WithHelp(c, hname, "?", "hlp")
 			c.Opts[c.HelpOpt()-1].AliasSplit = variant >= 2
-			toks = Ts("--"+hname, hname, "c1", "sub")
+			toks = Ts("--"+hname, hname, "c1", "sub", "w", "ws")
 			f.Defs = append(f.Defs, Def{Cfg: c, Tokens: toks, L: lim(tier, 2, 3), Disp: true, HelpF: true})
 		}
 		fams = append(fams, f)
